@@ -35,14 +35,19 @@ pub struct Def {
     /// built with the run-time `choice([..])` function rather than `construct!([..])`
     #[serde(default)]
     pub choice_fn: bool,
+    /// the first item of every alternative also has a long name, both spellings are in the
+    /// alphabet
+    #[serde(default)]
+    pub long_names: bool,
 }
 
+const L1: [&str; 4] = ["la", "lb", "lc", "ld"];
 const S1: [char; 4] = ['a', 'b', 'c', 'd'];
 const S2: [char; 4] = ['p', 'q', 'r', 's'];
 const CMD: [&str; 4] = ["ca", "cb", "cc", "cd"];
 
-fn alt(k: A, i: usize) -> P {
-    let s1 = Names::short(S1[i]);
+fn alt(k: A, i: usize, long_names: bool) -> P {
+    let s1 = if long_names { Names::both(S1[i], L1[i]) } else { Names::short(S1[i]) };
     let s2 = Names::short(S2[i]);
     let arg = |n: Names| P::arg(n, Ty::Os);
     let p = match k {
@@ -58,7 +63,7 @@ fn alt(k: A, i: usize) -> P {
 }
 
 pub fn to_opts(d: &Def) -> Opts {
-    let members: Vec<P> = d.ks.iter().enumerate().map(|(i, k)| alt(*k, i)).collect();
+    let members: Vec<P> = d.ks.iter().enumerate().map(|(i, k)| alt(*k, i, d.long_names)).collect();
     let c = if d.choice_fn { P::Choice(members) } else { P::Alt(members) };
     let cw = match d.w {
         W::Bare => c,
@@ -91,6 +96,9 @@ pub fn alphabet_for(d: &Def) -> Vec<Tok> {
             }
             _ => alpha.push(format!("-{}", S1[i])),
         }
+        if d.long_names && *k != A::Cmd {
+            alpha.push(format!("--{}", L1[i]));
+        }
     }
     alpha.iter().map(|s| Tok::s(s)).collect()
 }
@@ -102,7 +110,22 @@ pub enum M {
     Unspec,
 }
 
+/// a long name is another spelling of the alternative's first item
+fn normalise(d: &Def, argv: &[Tok]) -> Vec<Tok> {
+    if !d.long_names {
+        return argv.to_vec();
+    }
+    argv.iter()
+        .map(|t| match t.utf8().and_then(|s| s.strip_prefix("--")).and_then(|n| L1.iter().position(|l| *l == n)) {
+            Some(i) => Tok::s(&format!("-{}", S1[i])),
+            None => t.clone(),
+        })
+        .collect()
+}
+
 pub fn model(d: &Def, argv: &[Tok]) -> M {
+    let normal = normalise(d, argv);
+    let argv = &normal[..];
     let ks = &d.ks;
     let mut v = 0usize;
     // occurrences: (alternative, letter, value)
@@ -322,6 +345,52 @@ fn judge(d: &Def, unit: &Value, p: &bpaf::OptionParser<Val>, argv: &[Tok], ctx: 
     let ok = match (&m, &r) {
         (M::Unspec, Outcome::Panic(_)) => false,
         (M::Unspec, _) => {
+            // whether such a line is accepted is not specified - but IF a repeated choice accepts
+            // it, the collected values follow command-line order (held for single-item
+            // alternatives and commands: every alternative needs exactly one item of its own; a
+            // command takes everything to its right, so it comes last)
+            if matches!(d.w, W::Many | W::Some) && d.ks.iter().all(|k| matches!(k, A::Req | A::Arg | A::Cmd)) {
+                if let Outcome::Value(Val::T(fields)) = &r {
+                    if let Some(Val::L(items)) = fields.last() {
+                        let got: Vec<String> = items.iter().filter_map(|v| if let Val::Tag(t, _) = v { Some(t.clone()) } else { None }).collect();
+                        let mut want: Vec<String> = vec![];
+                        let nargv = normalise(d, argv);
+                        let mut i = 0;
+                        while i < nargv.len() {
+                            let s = nargv[i].lossy();
+                            i += 1;
+                            if let Some(ci) = CMD.iter().position(|c| *c == s) {
+                                if ci < d.ks.len() && d.ks[ci] == A::Cmd {
+                                    want.push(format!("k{}", ci));
+                                    break;
+                                }
+                            }
+                            if let Some(c) = s.strip_prefix('-').and_then(|x| x.chars().next()) {
+                                if let Some(ai) = S1.iter().position(|x| *x == c) {
+                                    if ai < d.ks.len() && d.ks[ai] != A::Cmd {
+                                        want.push(format!("k{}", ai));
+                                        if matches!(d.ks[ai], A::Arg | A::Group) {
+                                            i += 1; // its value
+                                        }
+                                    }
+                                } else if let Some(ai) = S2.iter().position(|x| *x == c) {
+                                    if ai < d.ks.len() && matches!(d.ks[ai], A::Group | A::GroupFA) {
+                                        i += 1; // its value
+                                    }
+                                }
+                            }
+                        }
+                        ctx.count("accepted-unspecified-lines-held-to-command-line-order");
+                        if got != want {
+                            let mut sig = BTreeMap::new();
+                            sig.insert("alts".to_string(), format!("{:?}", d.ks));
+                            sig.insert("wrap".to_string(), format!("{:?}", d.w));
+                            ctx.violation(Violation { property: "C07".into(), rule: "collected-values-follow-command-line-order".into(), sig, unit: unit.clone(), case: json!({"argv": argv}), expected: format!("alternatives in the order {:?}", want), observed: r.brief(), size: argv.len() * 1000 });
+                            return;
+                        }
+                    }
+                }
+            }
             ctx.s.skipped += 1;
             return;
         }
@@ -386,10 +455,10 @@ impl Check for C07 {
             for with_v in [false, true] {
                 for a in kinds {
                     for b in kinds {
-                        out.push(Def { ks: vec![a, b], w, with_v, len: tier.pick(5, 6), choice_fn: false });
+                        out.push(Def { ks: vec![a, b], w, with_v, len: tier.pick(5, 6), choice_fn: false, long_names: false });
                         if !with_v {
                             for c in kinds {
-                                out.push(Def { ks: vec![a, b, c], w, with_v, len: tier.pick(4, 5), choice_fn: false });
+                                out.push(Def { ks: vec![a, b, c], w, with_v, len: tier.pick(4, 5), choice_fn: false, long_names: false });
                             }
                         }
                     }
@@ -404,13 +473,21 @@ impl Check for C07 {
                     for b in k4 {
                         for c in k4 {
                             for e in k4 {
-                                out.push(Def { ks: vec![a, b, c, e], w, with_v: false, len: 4, choice_fn: false });
+                                out.push(Def { ks: vec![a, b, c, e], w, with_v: false, len: 4, choice_fn: false, long_names: false });
                             }
                         }
                     }
                 }
             }
         }
+        // both spellings of every alternative's first item (a flag found by any of its names must
+        // be the leftmost one)
+        let mut with_long: Vec<Def> = out.iter().filter(|d| d.ks.len() <= 3 && !d.with_v).cloned().map(|mut d| {
+            d.long_names = true;
+            d.len = d.len.min(tier.pick(3, 4));
+            d
+        }).collect();
+        out.append(&mut with_long);
         // the same choices assembled by the run-time `choice([..])` function
         let mut via_fn: Vec<Def> = out.iter().cloned().map(|mut d| {
             d.choice_fn = true;
@@ -449,7 +526,7 @@ impl Check for C07 {
         }
     }
     fn rule(&self) -> String {
-        "definitions = construct!([a1..an]) and choice([a1..an]) (the run-time function; quick: vectors up to 3 items) for every ordered tuple of n=2,3 (thorough: also 4) alternatives from {req_flag, argument, switch, argument with fallback, group of two arguments, group flag+argument, command}, the choice bare / optional / many / some, with and without a neighbouring switch; every vector of the token tree over the alternatives' names, two values, command names; reference model: T = alternatives whose names occur; |T|=0 -> first alternative accepting the empty line, |T|=1 -> that alternative's grammar, |T|>=2 -> failure; many/some over single-item alternatives -> list in command-line order; state = (definition, vector); non-trivial = judged vector containing at least one alternative's item".into()
+        "definitions = construct!([a1..an]) and choice([a1..an]) (the run-time function; quick: vectors up to 3 items) for every ordered tuple of n=2,3 (thorough: also 4) alternatives from {req_flag, argument, switch, argument with fallback, group of two arguments, group flag+argument, command}, the choice bare / optional / many / some, with and without a neighbouring switch; every vector of the token tree over the alternatives' names, two values, command names; reference model: T = alternatives whose names occur; |T|=0 -> first alternative accepting the empty line, |T|=1 -> that alternative's grammar, |T|>=2 -> failure; many/some over single-item alternatives -> list in command-line order; lines outside the model (a repeated choice containing a command or a group) are not judged for acceptance, but for choices over single-item alternatives and commands an accepted one must list its values in command-line order; state = (definition, vector); non-trivial = judged vector containing at least one alternative's item".into()
     }
     fn bounds(&self, tier: Tier) -> Value {
         json!({"alternatives": tier.pick("2..3", "2..4"), "vector_length": tier.pick("5 (n=2), 4 (n=3)", "6 (n=2), 5 (n=3), 4 (n=4)")})
